@@ -423,6 +423,57 @@ Proof.
   all: rewrite Hc; reflexivity.
 Qed.
 
+(* ---- further invariants (for C03) ------------------------------------------------------ *)
+(* any property of the bucket list kept by one adjacent merge is kept by the whole loop *)
+Lemma fcm_preserves : forall (P : list bucket -> Prop),
+  (forall bs bs', merge_adjacent bs bs' -> P bs -> P bs') ->
+  forall fuel n m bs bs', fcm fuel n m bs = Ok bs' -> P bs -> P bs'.
+Proof.
+  intros P HP. induction fuel as [|f IH]; intros n m bs bs' H Hp; cbn [fcm] in H;
+    destruct (loop_cond n m bs) eqn:Hc; try discriminate; try (injection H as <-; exact Hp).
+  destruct (loop_step_adjacent n m bs Hc) as [b1 [Hs Hm]]. rewrite Hs in H.
+  eapply IH; eauto.
+Qed.
+
+Definition leader_inside (bs : list bucket) : Prop := Forall (fun b => In (b_lead b) (b_mem b)) bs.
+
+Lemma merge_leader_inside : forall bs bs', merge_adjacent bs bs' -> leader_inside bs -> leader_inside bs'.
+Proof.
+  intros bs bs' H Hf. unfold leader_inside in *.
+  destruct H as [pre x y post|pre x y post];
+    apply Forall_app in Hf; destruct Hf as [Hpre Hrest];
+    inversion Hrest as [|? ? H1 Hr1]; subst; inversion Hr1 as [|? ? H2 Hpost]; subst;
+    apply Forall_app; (split; [exact Hpre|]); constructor; try exact Hpost;
+    cbn [absorb b_lead b_mem]; apply in_or_app; right; assumption.
+Qed.
+
+Lemma filter_eq_single : forall kept l, NoDup l -> In kept l ->
+  filter (fun v => negb (negb (val_eqb v kept))) l = [kept].
+Proof.
+  intros kept l Hn Hin. induction l as [|x t IH]; [contradiction|].
+  inversion Hn as [|? ? Hx Hn']; subst. cbn [filter].
+  destruct (val_eqb x kept) eqn:E; cbn [negb].
+  - apply val_eqb_eq in E. subst x. f_equal.
+    clear -Hx. induction t as [|y t IH]; [reflexivity|]. cbn [filter].
+    destruct (val_eqb y kept) eqn:E; cbn [negb].
+    + apply val_eqb_eq in E. subst. exfalso. apply Hx. left; reflexivity.
+    + apply IH. intro. apply Hx. right; assumption.
+  - apply IH; auto. destruct Hin as [->|Hin]; [|exact Hin].
+    rewrite val_eqb_refl in E. discriminate.
+Qed.
+
+(* convert_to_values keeps the members of a group (as a multiset) *)
+Lemma value_group_perm : forall kept ms, NoDup ms -> In kept ms ->
+  Permutation (snd (value_group kept ms)) ms.
+Proof.
+  intros kept ms Hn Hin. unfold value_group. cbn [snd].
+  apply (Permutation_trans (l' := filter (fun v => negb (val_eqb v kept)) ms
+                                   ++ filter (fun x => negb ((fun v => negb (val_eqb v kept)) x)) ms)).
+  - cbv beta. rewrite filter_eq_single by assumption.
+    apply Permutation_app_tail. apply Permutation_sym, Permutation_rev.
+  - apply filter_partition_perm.
+Qed.
+
 (* ============================================================================================ *)
 (* Part B — np_find_quantiles / find_quantiles                                                  *)
 (* ============================================================================================ *)
@@ -928,6 +979,81 @@ Proof.
   - right. intros b Hb Hn. rewrite forallb_forall in H. specialize (H b Hb).
     apply negb_true_iff in H. unfold rare in H. unfold fgeb. apply not_lt_ge; auto.
   - left. apply Nat.leb_le. exact H.
+Qed.
+
+Open Scope list_scope.
+(* ---- from the loop's buckets to the fitted values_orders (convert_to_values) -------------- *)
+Definition non_missing_groups (g : gl) : dict :=
+  filter (fun kv => negb (val_eqb (fst kv) str_nan)) (content g).
+
+Lemma NoDup_flat_map_each : forall (A B : Type) (f : A -> list B) l x,
+  NoDup (flat_map f l) -> In x l -> NoDup (f x).
+Proof.
+  intros A B f. induction l as [|a t IH]; intros x Hn Hin; [contradiction|].
+  cbn [flat_map] in Hn. apply NoDup_app_iff in Hn. destruct Hn as [H1 [H2 _]].
+  destruct Hin as [->|Hin]; [exact H1|apply IH; auto].
+Qed.
+
+Lemma In_members : forall bs b v, In b bs -> In v (b_mem b) -> In v (members bs).
+Proof. intros bs b v Hb Hv. unfold members. apply in_flat_map. eauto. Qed.
+
+Lemma filter_all : forall (A : Type) (p : A -> bool) l, (forall x, In x l -> p x = true) -> filter p l = l.
+Proof.
+  intros A p. induction l as [|a t IH]; intros H; [reflexivity|]. cbn [filter].
+  rewrite (H a (or_introl eq_refl)). f_equal. apply IH. intros; apply H; right; auto.
+Qed.
+
+Lemma leader_inside_init : forall d order, leader_inside (map (init_bucket d) order).
+Proof.
+  intros d order. unfold leader_inside. apply Forall_forall. intros b Hb.
+  apply in_map_iff in Hb. destruct Hb as [v [<- _]]. unfold init_bucket.
+  destruct (lookup v d) as [[c s]|]; cbn [b_lead b_mem]; left; reflexivity.
+Qed.
+
+(* the fitted order of an ordinal feature is exactly the loop's buckets: leaders in ranking order,
+   each group a permutation of its bucket's members, str_nan appended iff the column has NaN *)
+Theorem ordinal_fit_groups : forall mf nan_cnt order d g,
+  ordinal_fit mf nan_cnt order d = Ok (Some g) -> NoDup order -> ~ In str_nan order ->
+  exists bs,
+    find_common_modalities (nan_cnt + count_rows d) (min_freq_f mf) (map (init_bucket d) order) = Ok bs
+    /\ keys g = map b_lead bs ++ (if 0 <? nan_cnt then [str_nan] else [])
+    /\ map fst (non_missing_groups g) = map b_lead bs
+    /\ Forall2 (fun kv b => Permutation (snd kv) (b_mem b)) (non_missing_groups g) bs.
+Proof.
+  intros mf nan_cnt order d g H Hnd Hnan. unfold ordinal_fit in H.
+  set (n := nan_cnt + count_rows d) in *. set (m := min_freq_f mf) in *.
+  destruct (all_rare n m (map (fun p => snd (fst p)) d)); [discriminate|].
+  destruct (negb (forallb (fun p => mem (fst (fst p)) order) d)); [discriminate|].
+  destruct (find_common_modalities n m (map (init_bucket d) order)) as [bs| |] eqn:E; try discriminate.
+  injection H as <-. exists bs. split; [reflexivity|].
+  destruct (find_common_modalities_post d _ _ _ _ E) as [_ [_ [Hperm _]]].
+  rewrite members_init in Hperm by apply init_bucket_mem.
+  assert (Hli : leader_inside bs).
+  { unfold find_common_modalities in E.
+    eapply (fcm_preserves leader_inside merge_leader_inside); eauto. apply leader_inside_init. }
+  assert (Hnn : forall b, In b bs -> b_lead b <> str_nan).
+  { intros b Hb Heq. unfold leader_inside in Hli. rewrite Forall_forall in Hli.
+    specialize (Hli b Hb). apply Hnan. eapply Permutation_in; [exact Hperm|].
+    rewrite <- Heq. eapply In_members; eauto. }
+  set (vg := fun b => value_group (b_lead b) (b_mem b)).
+  assert (Hfilter : filter (fun kv => negb (val_eqb (fst kv) str_nan)) (map vg bs) = map vg bs).
+  { apply filter_all. intros kv Hkv. apply in_map_iff in Hkv. destruct Hkv as [b [<- Hb]].
+    unfold vg, value_group. cbn [fst]. apply negb_true_iff. apply val_eqb_neq. auto. }
+  assert (Hgroups : non_missing_groups (gl_of_groups (map vg bs) (0 <? nan_cnt)) = map vg bs).
+  { unfold non_missing_groups, gl_of_groups. destruct (0 <? nan_cnt); cbn [content]; [|exact Hfilter].
+    rewrite filter_app, Hfilter. cbn [filter fst]. rewrite val_eqb_refl. cbn [negb]. apply app_nil_r. }
+  fold vg. rewrite Hgroups. repeat split.
+  - unfold gl_of_groups. destruct (0 <? nan_cnt); cbn [keys]; rewrite map_map; unfold vg, value_group;
+      cbn [fst]; [reflexivity|rewrite app_nil_r; reflexivity].
+  - rewrite map_map. reflexivity.
+  - assert (Hnd' : NoDup (members bs)) by (eapply Permutation_NoDup; [apply Permutation_sym; exact Hperm|exact Hnd]).
+    unfold leader_inside in Hli. rewrite Forall_forall in Hli.
+    assert (Hall : forall b, In b bs -> Permutation (snd (vg b)) (b_mem b)).
+    { intros b Hb. unfold vg. apply value_group_perm; [|apply Hli; exact Hb].
+      unfold members in Hnd'. eapply NoDup_flat_map_each; eauto. }
+    clear -Hall. induction bs as [|b t IH]; cbn [map]; constructor.
+    + apply Hall. left; reflexivity.
+    + apply IH. intros; apply Hall; right; auto.
 Qed.
 
 (* ============================================================================================ *)
